@@ -172,6 +172,11 @@ type PDeleg struct {
 	V      string `json:"v"`
 	Shares int64  `json:"shares"`
 }
+type PUnbond struct {
+	D  string  `json:"d"`
+	V  string  `json:"v"`
+	Hs []int64 `json:"hs"` // creation heights of the unbonding entries
+}
 type PVal struct {
 	V      string `json:"v"`
 	Shares int64  `json:"shares"`
@@ -213,6 +218,7 @@ type State struct {
 	Fishing   []PFishing       `json:"fishing"`
 	Delegs    []PDeleg         `json:"delegs"`
 	Vals      []PVal           `json:"vals"`
+	Unbond    []PUnbond        `json:"unbond"`
 	Vol       string           `json:"vol"` // process-global of the staking hooks ("" without the verif hooks, "0" when clear)
 	Inexact   []string         `json:"inexact"`
 	Junk      []string         `json:"junk"` // undecodable keys found under the node module's prefixes
@@ -462,6 +468,20 @@ func (c *Chain) Project() State {
 		} else {
 			_ = who
 			s.Vol = v
+		}
+	}
+	s.Unbond = []PUnbond{}
+	for _, n := range c.BalanceNames() {
+		if strings.HasPrefix(n, "m_") {
+			continue
+		}
+		addr := sdk.MustAccAddressFromBech32(c.Concrete(n))
+		for _, u := range a.StakingKeeper.GetUnbondingDelegations(ctx, addr, 100) {
+			pu := PUnbond{D: n, V: c.Name(u.ValidatorAddress), Hs: []int64{}}
+			for _, e := range u.Entries {
+				pu.Hs = append(pu.Hs, e.CreationHeight)
+			}
+			s.Unbond = append(s.Unbond, pu)
 		}
 	}
 	sort.Strings(s.Inexact)
